@@ -136,12 +136,10 @@ theorem scanline_unpack (d : Nat) (hd : d = 1 ∨ d = 2 ∨ d = 4) (ft : Nat) (r
   unfold scanline
   exact pack_unpack d hd row hrow
 
-/-- OPEN obligations of C09 (stated, not proved; judged on every output instead):
-    * `png_palette`: the palette / tRNS assembly of `write_png` (sorting, placeholder for transparent,
-      alpha colours first) gives every colour index its configured colour — not modelled;
-    * `PngStreamRows`: unfiltering + unpacking the whole model stream `pngStream` yields the index grid
-      (follows from `up_filter_zero_row`, `scanline_unpack` and `matrix_iter_pixel`; the splitting of the
-      stream into scanlines is not proved). -/
+/-- the statement `png_stream_rows` (PROVED in Props/C09Png.lean, together with the palette / tRNS
+    theorems `png_palette_sound`, `png_standin_and_trns` and the composition `png_model_picture`; until
+    round 2 this and `png_palette` were the open obligations of C09): the model stream `pngStream` is
+    the concatenation of (rows + 2b)·s scanlines with filter type 0 or 2 and ⌈width·depth/8⌉ bytes each -/
 def PngStreamRows : Prop :=
   ∀ (idx : List (List Nat)) (w d s b qz : Nat), (d = 1 ∨ d = 2 ∨ d = 4) → 0 < s → qz < 2 ^ d →
     (∀ r ∈ idx, r.length = w ∧ ∀ v ∈ r, v < 2 ^ d) →
